@@ -62,11 +62,13 @@ def run(ctx):
             toks = lang.tree_tokens(tree, ctx.rng)
             route = ctx.rng.choice(['parse', 'parse', 'parse', 'enforce', 'load'])
             cases.append(pc.record_text(toks, lang.render(toks, ctx.rng, wide=True), route, 'c01'))
+    lang.install_http_stub()
     # every kind of leaf check (not only role:), and the same expression spelled with upper-case attribute /
     # rule / placeholder names right after the lower-case one: a different rule, decided on its own keys
     for i in range(120 if q else 3000):
         off = ctx.rng.randrange(6)
-        lo, up = lang.LeafEnv(lang.LeafEnv.ALL, off), lang.LeafEnv(lang.LeafEnv.ALL, off, upper=True)
+        kinds = lang.LeafEnv.WITH_HTTP if i % 3 == 0 else lang.LeafEnv.ALL
+        lo, up = lang.LeafEnv(kinds, off), lang.LeafEnv(kinds, off, upper=True)
         tree = lang.random_tree(ctx.rng, ctx.rng.choice([2, 3, 5, 8]), ctx.rng.randint(1, 5))
         toks = lang.tree_tokens(tree, ctx.rng)
         route = ctx.rng.choice(['parse', 'parse', 'enforce', 'load'])
